@@ -217,7 +217,7 @@ def plan_C08(tier):
 def plan_C09(tier):
     jobs, a = std_jobs(tier, 100000, 25000, 8000)
     if tier != "quick":
-        jobs.append(a.job("miri", 200, shards=16, params={"max_order": 7}, timeout=1800))
+        jobs.append(a.job("miri", 200, shards=16, params={"max_order": 7, "huge_per_100k": 0}, timeout=1800))
     return dict(
         jobs=jobs,
         rule="case = (digraph of 18 families (SCCs joined by a DAG with tree/back/cross arcs prominent), order 1-16, one of five types or a non-contiguous AdjacencyMap); Tarjan::components() must be a partition of V and equal the classes of mutual reachability on the model; "
@@ -237,7 +237,7 @@ def plan_C10(tier):
     ]
     if not q:
         jobs.append(dict(engine="rel", lo=0, hi=1 << 20, shard=1 << 16, params={"mode": "ex5"}))
-        jobs.append(a.job("miri", 160, shards=16, params={"max_order": 6}, timeout=1800))
+        jobs.append(a.job("miri", 160, shards=16, params={"max_order": 6, "huge_per_100k": 0}, timeout=1800))
     return dict(
         jobs=jobs,
         rule="case = AdjacencyMap with contiguous ids: ALL digraphs of order <= 4 (indices 0..4164, exhaustive for that sub-space in the rel engine), order 5 sampled (thorough: all 2^20), random orders 6-9 with density <= .5, a blocked/unblocked family, structured families; "
@@ -290,6 +290,8 @@ def plan_C13(tier):
         a.job("rel", 9000 if q else 90000, params={"part": "probe"}),
         a.job("rel", 4000 if q else 60000, params={"part": "prog"}),
         a.job("rel", 400 if q else 4000, params={"part": "leak"}),
+        a.job("rel", 200 if q else 2000, shards=4, cpus=1, params={"part": "leak"}),
+        a.job("rel", 200 if q else 2000, shards=4, cpus=3, params={"part": "leak"}),
         a.job("miri", 384 if q else 3840, shards=16 if q else 64, params={"part": "probe", "max_order": 5, "noalloc": 1}, timeout=2400, miri_cpus=3),
     ]
     if not q:
